@@ -314,3 +314,4 @@ MANIFEST = {
             "faults inside the removal calls themselves. Trusted: effect tables (os, shutil, zipfile, zarr, tempfile).",
     "technique": "CFG dominance/reachability with exception edges + path-provenance dataflow (effect analysis)",
 }
+MANIFEST["text"] += " Cleanup must use a remover of the target's kind (file ↔ os.remove/unlink, directory ↔ rmtree/rmdir)."
